@@ -147,8 +147,9 @@ Theorem C01_unfaulted_encrypt_succeeds_with_session_closes : forall svc prod t0 
 Proof. exact unfaulted_encrypt_succeeds_closing. Qed.
 Print Assumptions C01_unfaulted_encrypt_succeeds_with_session_closes.
 
-(* ---- the default policy: every session owns its intermediate-key cache and Session.Close destroys it; SessionFactory.Close destroys the
-   factory's system-key cache and shared intermediate-key cache (Envelope/LiveD.v: the liveness invariant relative to the set of destroyed
+(* ---- every policy (per-session, shared or no key caches; with or without the session cache): Session.Close destroys the cache the session
+   owns - for a session of the session cache once it has been evicted and its last holder has released it; SessionFactory.Close destroys the
+   factory's system-key cache and shared intermediate-key cache and empties its session cache (Envelope/LiveD.v: the liveness invariant relative to the set of destroyed
    caches; Envelope/LiveCloseD.v: the closes add caches to that set; cf = factories closed so far) ---- *)
 From Asherah Require Envelope.LiveD Envelope.LiveCloseD.
 
@@ -181,6 +182,14 @@ Example C01_closes_of_sessions_and_factories_nonvacuous :
   fst (fst (hstep h (HDecrypt 2 0 [] []))) = ODec (Some 5%nat) /\ fst (fst (hstep h (HDecrypt 2 1 [] []))) = ODec (Some 6%nat) /\
   fst (fst (hstep h (HDecrypt 0 0 [] []))) <> ODec (Some 5%nat).
 Proof. exact LiveCloseD.own_closing_nonvacuous. Qed.
+
+Example C01_session_cache_closes_nonvacuous :
+  let h := snd (hrun (hinit Rotation.t0) LiveCloseD.cached_closing_ops) in
+  LiveCloseD.okrun (s "svc") (s "prod") [] (hinit Rotation.t0) LiveCloseD.cached_closing_ops /\
+  LiveD.nz_storeb (w_store (h_world h)) = true /\
+  fst (fst (hstep h (HDecrypt 2 0 [] []))) = ODec (Some 5%nat) /\
+  fst (fst (hstep h (HDecrypt 0 0 [] []))) <> ODec (Some 5%nat).
+Proof. exact LiveCloseD.cached_closing_nonvacuous. Qed.
 
 From Asherah Require Envelope.TotalD.
 
